@@ -5833,3 +5833,188 @@ func ruleTimeIdxOrder(w *World, r *Report) {
 		r.ok("TIMEIDX-ORDER", key, w.Pos(upd.Pos()), "delete-then-put on the time index")
 	}
 }
+
+// TYPED-NIL (C13, C14, C18): a nil pointer in an error is not a nil error.
+func ruleTypedNil(prop string) ruleFn {
+	return func(w *World, r *Report) {
+		r.Rule("TYPED-NIL", "no function of rulio returns, as its `error` result, a pointer that it got from a call and did not test: an interface that holds a nil *core.Condition is not nil, so `err != nil` is true for the caller although nothing failed (its message is then \"nil condition\").  Every return whose error result wraps a pointer-typed call result (not a freshly built value) is control-dependent on a nil test of that pointer", 0)
+		n := 0
+		for _, fn := range w.Funcs {
+			if isTestFile(w, fn) || fn.Synthetic != "" || !w.IsRulio(fn) {
+				continue
+			}
+			idx := errorResultIndex(fn.Signature)
+			if idx < 0 {
+				continue
+			}
+			allInstrs(fn, func(in ssa.Instruction) {
+				ret, ok := in.(*ssa.Return)
+				if !ok || idx >= len(ret.Results) {
+					return
+				}
+				mi, ok := resolveSpill(ret.Results[idx]).(*ssa.MakeInterface)
+				if !ok {
+					return
+				}
+				if _, isPtr := mi.X.Type().Underlying().(*types.Pointer); !isPtr {
+					return
+				}
+				var src ssa.Value = mi.X
+				if e, ok := src.(*ssa.Extract); ok {
+					src = e.Tuple
+				}
+				call, isCall := src.(*ssa.Call)
+				if !isCall {
+					return // a fresh &T{...} or a package-level value
+				}
+				if f := call.Common().StaticCallee(); f != nil && alwaysReturnsFresh(f) {
+					return // a constructor (NewSyntaxError ...): never nil
+				}
+				n++
+				key := "fn=" + fname(fn)
+				tested := controlDependsOnIf(fn, in, func(ifi *ssa.If) bool {
+					ct, ok := decodeIf(ifi)
+					return ok && (ct.TrueWhen == "nil" || ct.TrueWhen == "nonnil") && resolveSpill(ct.V) == mi.X
+				})
+				if tested {
+					r.ok("TYPED-NIL", key, w.PosOf(in), "the pointer is tested before it is returned as an error")
+				} else {
+					r.violation("TYPED-NIL", key, w.PosOf(in), "a pointer result of a call ("+types.TypeString(mi.X.Type(), nil)+") is returned as `error` untested: when it is nil the caller sees a non-nil error")
+				}
+			})
+		}
+		r.stat("TYPED-NIL.sites", n)
+	}
+}
+
+// alwaysReturnsFresh: every return of f hands back (as its first result) a value it allocated itself.
+func alwaysReturnsFresh(f *ssa.Function) bool {
+	if len(f.Blocks) == 0 {
+		return false
+	}
+	ok, any := true, false
+	allInstrs(f, func(in ssa.Instruction) {
+		ret, isRet := in.(*ssa.Return)
+		if !isRet || len(ret.Results) == 0 {
+			return
+		}
+		any = true
+		if _, isAlloc := resolveSpill(ret.Results[0]).(*ssa.Alloc); !isAlloc {
+			ok = false
+		}
+	})
+	return ok && any
+}
+
+// RECOVER-ALL (C13, C14): whatever goes wrong inside the script engine fails the script, not the process.
+func ruleRecoverAll(prop string) ruleFn {
+	return func(w *World, r *Report) {
+		r.Rule("RECOVER-ALL", "core.RunJavascript runs foreign code in a third-party interpreter, also in goroutines of its own (the concurrently executed actions of a rule), where an escaping panic ends the process.  Its entry block therefore defers, unconditionally, a function that calls recover() and contains no panic of its own (no re-panic), and that stores into the function's named error result: an interpreter panic (a script that makes otto reflect on a Go interface value) comes back as the script's error.  (RECOVER-RESULT decides that what is recovered is reported; the time-out signal is recovered by an inner deferred function.)", 1)
+		fn := w.Func("core", "RunJavascript")
+		key := "fn=" + fname(fn)
+		found := false
+		if len(fn.Blocks) > 0 {
+			entry := fn.Blocks[0]
+			allInstrs(fn, func(in ssa.Instruction) {
+				d, ok := in.(*ssa.Defer)
+				if !ok || found {
+					return
+				}
+				// unconditional: the defer's block dominates every return block (it is in the entry block, or in a block
+				// that every path passes)
+				if in.Block() != entry && !dominatesAllReturns(fn, in.Block()) {
+					return
+				}
+				var g *ssa.Function
+				if mc, ok := d.Call.Value.(*ssa.MakeClosure); ok {
+					g, _ = mc.Fn.(*ssa.Function)
+				} else if f, ok := d.Call.Value.(*ssa.Function); ok {
+					g = f
+				}
+				if g == nil {
+					return
+				}
+				recovers, panics, setsErr := false, false, false
+				allInstrs(g, func(x ssa.Instruction) {
+					if c, ok := x.(*ssa.Call); ok {
+						if b, ok := c.Common().Value.(*ssa.Builtin); ok && b.Name() == "recover" {
+							recovers = true
+						}
+					}
+					if _, ok := x.(*ssa.Panic); ok {
+						panics = true
+					}
+					if st, ok := x.(*ssa.Store); ok && isErrorType(st.Val.Type()) {
+						if _, isFree := st.Addr.(*ssa.FreeVar); isFree {
+							setsErr = true
+						}
+					}
+				})
+				if recovers && !panics && setsErr {
+					found = true
+				}
+			})
+		}
+		if found {
+			r.ok("RECOVER-ALL", key, w.Pos(fn.Pos()), "an unconditional deferred recover turns every panic into the script's error")
+		} else {
+			r.violation("RECOVER-ALL", key, w.Pos(fn.Pos()), "RunJavascript has no unconditional deferred recover without a re-panic: a panic inside the interpreter escapes, and in the goroutine of a concurrently executed action it ends the process")
+		}
+	}
+}
+
+// dominatesAllReturns: block b dominates every block that ends in a Return.
+func dominatesAllReturns(fn *ssa.Function, b *ssa.BasicBlock) bool {
+	for _, x := range fn.Blocks {
+		if len(x.Instrs) == 0 {
+			continue
+		}
+		if _, ok := x.Instrs[len(x.Instrs)-1].(*ssa.Return); ok && !b.Dominates(x) {
+			return false
+		}
+	}
+	return true
+}
+
+// RULE-SHAPED-SKIP (C01, C13): what is stored like a rule but is none does not keep the rules from firing.
+func ruleRuleShapedSkip(prop string) ruleFn {
+	return func(w *World, r *Report) {
+		r.Rule("RULE-SHAPED-SKIP", "AddFact stores any JSON object, including one with a map under `rule` that has a `when` and nothing else; both states file it with the rules (index, linear scan).  In every State implementation's FindCachedRules the candidate that does not parse as a rule (core.RuleFromMap fails) is skipped: no error return is control-dependent on RuleFromMap's error.  Returning that error fails the whole event, for every rule that matches it, for as long as the fact is stored", 2)
+		a := newLocAnchors(w)
+		rfm := w.Func("core", "RuleFromMap")
+		for nt := range a.stateImp {
+			fn := w.TryMethod(typeRel(nt), nt.Obj().Name(), "FindCachedRules")
+			if fn == nil {
+				continue
+			}
+			key := "fn=" + fname(fn)
+			var calls []*ssa.Call
+			allInstrs(fn, func(in ssa.Instruction) {
+				if c, ok := in.(*ssa.Call); ok && c.Common().StaticCallee() == rfm {
+					calls = append(calls, c)
+				}
+			})
+			if len(calls) == 0 {
+				r.exempt("RULE-SHAPED-SKIP", key, w.Pos(fn.Pos()), "FindCachedRules does not parse candidates with RuleFromMap: shape not recognised, not decided")
+				continue
+			}
+			bad := ""
+			for _, c := range calls {
+				allInstrs(fn, func(x ssa.Instruction) {
+					ret, ok := x.(*ssa.Return)
+					if !ok || isSuccessReturnPS(x) {
+						return
+					}
+					if dependsOnErrOf(ret, c) {
+						bad = w.PosOf(x)
+					}
+				})
+			}
+			if bad != "" {
+				r.violation("RULE-SHAPED-SKIP", key, bad, "a candidate that does not parse as a rule fails the whole rule lookup: no rule fires for any event that matches that candidate's `when`")
+			} else {
+				r.ok("RULE-SHAPED-SKIP", key, w.PosOf(calls[0]), "a candidate that does not parse is skipped")
+			}
+		}
+	}
+}
